@@ -505,6 +505,8 @@ def scenario_eval(case):
         return small_substrate_eval(case)
     if scen == "sink":
         return sink_eval(case)
+    if scen == "flagged-multimer":
+        return multimer_eval(case)
     species = [{"label": lab, "D": (1.0 if scen == "source" else 0.0), "density": 0} for lab in labels]
     net = {"species": species, "reactions": [{"eq": "%s -> %s" % (labels[f], labels[p]), "k+": k}] if scen == "reactant" else []}
     space = {"type": "grid", "w": 2, "h": 1, "d": 1} if kind == "grid" else {"type": "graph", "nodes": [{}, {}], "edges": [{"nodes": [0, 1]}]}
@@ -600,6 +602,44 @@ def small_substrate_eval(case):
     return True, None, detail
 
 
+def multimer_eval(case):
+    """m A -> B (m = 2 or 3) with A chemostated at m-1 molecules: the flag exempts the entry from the change, not from the
+    propensity — fewer molecules than the coefficient means the reaction is impossible (combinatorial count 0), flagged or not.
+    The stochastic engines must never produce B; the unflagged twin (same state, no flag) must not either."""
+    ns, f, p, kind, option, nsteps = case["ns"], case["flagged"], case["product"], case["space"], case["option"], case["nsteps"]
+    m, k = case["m"], case["k"]
+    labels = L.LABELS[:ns]
+    species = [{"label": lab, "D": 0.0, "density": 0} for lab in labels]
+    net = {"species": species, "reactions": [{"eq": "%d %s -> %s" % (m, labels[f], labels[p]), "k+": k}]}
+    space = {"type": "grid", "w": 2, "h": 1, "d": 1, "cell_volume": "1 µm3"} if kind == "grid" else \
+        {"type": "graph", "nodes": [{"volume": "1 µm3"}, {"volume": "1 µm3"}], "edges": [{"nodes": [0, 1]}]}
+    n = 2
+    out = {}
+    for flagged in (True, False):
+        system = L.build_system({"network": net, "space": space})
+        x = [0.0] * (ns * n)
+        x[f * n] = float(m - 1)            # one occupied cell only: the initial-state redistribution keeps it there
+        system.state = x
+        system.reset_chemostats()
+        if flagged:
+            system.set_chemostat(f, 0, 1)
+        script, traj, _ = run_engine(system, option, L.DEFAULT_SYS, Fraction(1, 16), nsteps, case["seed"], False)
+        ss = engine_io.samples(traj)
+        out[flagged] = ss
+    ss = out[True]
+    last = ss[-1][1]
+    detail = {"first": ss[0][1], "last": last, "unflagged_last": out[False][-1][1], "iterations": len(ss) - 1, "watched_entry": p * n}
+    if out[False][-1][1][p * n] != 0 or out[False][-1][1][p * n + 1] != 0:
+        return False, ("%d %s -> %s with %d molecule(s) of %s (no flag): %r product molecules appeared although the reaction needs %d reactant molecules"
+                       % (m, labels[f], labels[p], m - 1, labels[f], out[False][-1][1][p * n], m)), detail
+    if last[p * n] != 0:
+        return False, ("%s: %d %s -> %s with %s chemostated at %d molecule(s): %r product molecules after %d iterations; the unflagged twin produces none "
+                       "(combinatorial count %s = 0): the propensity of a reaction must not depend on the flag of its reactant"
+                       % (option, m, labels[f], labels[p], labels[f], m - 1, last[p * n], len(ss) - 1,
+                          "*".join(str(m - 1 - j) for j in range(m)))), detail
+    return True, None, detail
+
+
 def sink_eval(case):
     """a free cell holding N molecules next to a chemostated cell holding 5 (D = 1 µm2/s, 1 µm cells: first-order constant 1/s
     for leaving through the face): molecules jump INTO the chemostated cell as anywhere else, the free cell drains"""
@@ -650,7 +690,8 @@ def source_scenarios(ctx):
     rng = ctx.rng
     for kind in ("grid", "graph"):
         for option in ("euler", "tauleap", "gillespie"):
-            for scen, N in [("source", 1000)] + [("reactant", N) for N in RESERVOIRS] + ([("small-substrate", 5), ("sink", 2000)] if option != "gillespie" else []):
+            for scen, N in [("source", 1000)] + [("reactant", N) for N in RESERVOIRS] + ([("small-substrate", 5), ("sink", 2000)] if option != "gillespie" else []) \
+                    + ([("flagged-multimer", 1), ("flagged-multimer", 2)] if option != "euler" else []):
                 ns = 3 if scen == "small-substrate" else rng.choice([2, 3])
                 f = rng.randrange(ns)                 # index of the flagged species
                 p = (f + 1) % ns                      # product species (reactant scenario)
@@ -663,6 +704,8 @@ def source_scenarios(ctx):
                     case.update(nsteps=4)
                 if scen == "small-substrate":
                     case.update(B=10 ** 6, k=1.6e-4, nsteps=(1 if option == "euler" else 8))
+                if scen == "flagged-multimer":
+                    case.update(m=N + 1, k=50.0, nsteps=8)
                 try:
                     ok, what, detail = scenario_eval(case)
                 except Exception as ex:  # noqa
